@@ -19,7 +19,7 @@ from .norm import const_value
 
 class Spec(object):
     def __init__(self, fid, neg, swap, sswap=(), flip=(), ignore=(), reason="", only=()):
-        self.only = tuple(only)       # if given: only statements containing one of these substrings are considered
+        self.only = only if callable(only) else tuple(only)       # if given: substrings of the statement text, or a predicate over the statement's AST
         self.fid = fid
         self.neg = set(neg)            # position-like names: v -> -v
         self.swap = dict(swap)         # lower-bound-like name -> upper-bound-like name (lo -> -up, up -> -lo)
@@ -51,7 +51,7 @@ MIRRORED = [
          reason="second coordinate step: towards the interior when x0 sits on the lower / upper bound"),
     Spec("controller.Controller.done_with_current_rho", neg=["xnew", "gnew"], swap={"sl": "su"},
          reason="bound test of the reduction criterion for a variable on its lower / upper bound"),
-    Spec("solver.solve", neg=["x0"], swap={"xl": "xu"}, only=["x0 <", "x0 >", "x0[idx]", "np.ones"],
+    Spec("solver.solve", neg=["x0"], swap={"xl": "xu"}, only=lambda node: _solve_x0_stanza(node),
          reason="x0 is pushed onto the lower / upper bound; missing bounds default to -/+1e20"),
 ]
 
@@ -261,9 +261,59 @@ class Stmt(object):
         self.node, self.kind, self.target, self.value, self.text = node, kind, target, value, text
 
 
+def _derived_spec(fi, spec):
+    """The table names the arrays; code may walk them through loop variables (`for j, dj in enumerate(dirn)`, `for lo, up in zip(lower, upper)`).
+    Those names transform like the arrays they come from.  (Plain assignments are *not* treated as aliases: `bdtest = gnew[j]` is itself a mirrored statement.)"""
+    import copy
+    sp2 = copy.copy(spec)
+    sp2.neg, sp2.swap = set(spec.neg), dict(spec.swap)
+    inv = dict((v, k) for k, v in spec.swap.items())
+
+    def base(node):
+        while isinstance(node, ast.Subscript):
+            node = node.value
+        if isinstance(node, ast.Attribute):
+            return node.attr
+        if isinstance(node, ast.Name):
+            return node.id
+        return None
+
+    def bind(tgt, src_base, pend):
+        if not isinstance(tgt, ast.Name) or src_base is None:
+            return
+        if src_base in sp2.neg:
+            sp2.neg.add(tgt.id)
+        elif src_base in sp2.swap or src_base in inv:
+            pend[src_base] = tgt.id
+
+    for _round in range(2):
+        for node in ast.walk(fi.node):
+            pend = {}
+            if isinstance(node, ast.For) and isinstance(node.iter, ast.Call):
+                fn = ekey(node.iter.func).split(".")[-1]
+                if fn == "enumerate" and node.iter.args and isinstance(node.target, ast.Tuple) and len(node.target.elts) == 2:
+                    it = node.iter.args[0]
+                    if isinstance(it, ast.Call) and ekey(it.func).split(".")[-1] == "zip" and isinstance(node.target.elts[1], ast.Tuple):
+                        for t, a in zip(node.target.elts[1].elts, it.args):
+                            bind(t, base(a), pend)
+                    else:
+                        bind(node.target.elts[1], base(it), pend)
+                elif fn == "zip" and isinstance(node.target, ast.Tuple):
+                    for t, a in zip(node.target.elts, node.iter.args):
+                        bind(t, base(a), pend)
+            elif isinstance(node, ast.For):
+                bind(node.target, base(node.iter), pend)
+            # a lower-like and an upper-like element bound in the same loop header trade places
+            for lo, up in list(sp2.swap.items()):
+                if lo in pend and up in pend:
+                    sp2.swap[pend[lo]] = pend[up]
+    return sp2
+
+
 def collect(eng, fi, spec):
     """Side-sensitive statements of fi: simple statements and tests that mention a lower- or upper-side name, are side indicators, or inherit a
     side from the side-marked statement/test that precedes or encloses them -- and that are *not* invariant under the reflection."""
+    spec = _derived_spec(fi, spec)
     tr = _Tr(spec)
     lower = set(spec.swap) | set(spec.sswap)
     upper = set(spec.swap.values()) | set(spec.sswap.values())
@@ -362,14 +412,14 @@ def collect(eng, fi, spec):
     L, U = [], []
     tr.two_sided = []
     for (it, sd) in items:
-        if it is not None and it.kind != "test" and own_side(it.node, it) == "B" and it.text not in spec.ignore and (not spec.only or any(o in it.text for o in spec.only)):
+        if it is not None and it.kind != "test" and own_side(it.node, it) == "B" and it.text not in spec.ignore and _selected(spec, it):
             tr.two_sided.append(it)
             continue
         if it is None or sd not in ("L", "U"):
             continue
         if it.text in spec.ignore:
             continue
-        if spec.only and not any(o in it.text for o in spec.only):
+        if not _selected(spec, it):
             continue
         try:
             if _same(mirror_form(tr, it), own_form(tr, it)):
@@ -378,6 +428,34 @@ def collect(eng, fi, spec):
             pass
         (L if sd == "L" else U).append(it)
     return tr, L, U
+
+
+def _selected(spec, it):
+    """spec.only: nothing (every statement), substrings of the statement text, or a predicate over the statement's AST node."""
+    if not spec.only:
+        return True
+    if callable(spec.only):
+        return bool(spec.only(it.node))
+    return any(o in it.text for o in spec.only)
+
+
+def _solve_x0_stanza(node):
+    """solver.solve handles bounds in many places (validation, scaling, projections); the mirrored part is: the default bounds (+/-1e20 * ones), the masks
+    `<tmp> = x0 < xl` / `x0 > xu`, and the masked stores into x0."""
+    def base(n):
+        while isinstance(n, ast.Subscript):
+            n = n.value
+        return n.id if isinstance(n, ast.Name) else None
+    if not isinstance(node, ast.Assign) or len(node.targets) != 1:
+        return False
+    t, v = node.targets[0], node.value
+    if isinstance(t, ast.Subscript) and base(t) == "x0":
+        return True
+    if isinstance(v, ast.Compare) and len(v.ops) == 1 and isinstance(v.ops[0], (ast.Lt, ast.LtE, ast.Gt, ast.GtE)) and "x0" in (base(v.left), base(v.comparators[0])):
+        return True
+    if isinstance(t, ast.Name) and t.id in ("xl", "xu") and any(isinstance(c, ast.Call) and ekey(c.func).split(".")[-1] in ("ones", "full") for c in ast.walk(v)):
+        return True
+    return False
 
 
 def _is_indicator(v):
@@ -431,16 +509,40 @@ def own_form(tr, s):
     return (s.kind, s.target, canon(val), canon(idx) if idx is not None else None)
 
 
+def _temp_map(tr, stmts):
+    """Side-local temporaries (plain names assigned by the side's statements that the table does not know) are bound variables: they are
+    numbered in order of first assignment, so that `idx = x0 < xl` / `idx = x0 > xu` and `below = x0 < xl` / `above = x0 > xu` are the same pair."""
+    spec = tr.spec
+    known = spec.neg | set(spec.swap) | set(spec.swap.values()) | set(spec.sswap) | set(spec.sswap.values()) | spec.flip
+    order = []
+    for st in stmts:
+        node = st.node
+        tgt = node.targets[0] if isinstance(node, ast.Assign) and len(node.targets) == 1 else None
+        if isinstance(tgt, ast.Name) and tgt.id not in known and tgt.id not in order:
+            order.append(tgt.id)
+    return dict((n, "_T%d" % (i + 1)) for i, n in enumerate(order))
+
+
+def _rename(tr, form, tmap):
+    if not tmap:
+        return form
+    sub = dict((tr.sym(a), tr.sym(b)) for a, b in tmap.items())
+    kind, tgt, val, idx = form
+    return (kind, tmap.get(tgt, tgt), val.xreplace(sub) if isinstance(val, sp.Basic) else val, idx.xreplace(sub) if isinstance(idx, sp.Basic) else idx)
+
+
 def check_function(eng, spec):
     """Returns (pairs matched, [unmatched lower-side stmts with nearest upper candidate], [unmatched upper-side stmts])."""
     fi = eng.fn(spec.fid)
     tr, L, U = collect(eng, fi, spec)
-    uforms = [(own_form(tr, u), u) for u in U]
+    spec = tr.spec
+    mapL, mapU = _temp_map(tr, L), _temp_map(tr, U)
+    uforms = [(_rename(tr, own_form(tr, u), mapU), u) for u in U]
     used = set()
     matched = []
     unmatched = []
     for s in L:
-        mf = mirror_form(tr, s)
+        mf = _rename(tr, mirror_form(tr, s), mapL)
         hit = None
         for j, (uf, u) in enumerate(uforms):
             if j in used:
